@@ -2334,3 +2334,7 @@ def _dtype_is_numpy_struct_array(dtype):""")], "C20.9")
 
 # C08.4 with the leaf predicate lifted to module level (on top of benign/Z7/3.diff)
 SEEDS["C08_lifted_predicate_catches_everything"] = ("C08", [("@diff", "benign/Z7/3.diff", None), (P, "        accepts_leaftype(x)\n    except TypeError:\n        return False", "        accepts_leaftype(x)\n    except Exception:\n        return False")], "C08.4")
+
+
+# C16.2 with the memo key computed by an early-return helper (on top of benign/W7/4.diff): the helper forgets the leaf position
+SEEDS["C16_key_helper_drops_the_tree_path"] = ("C16", [("@diff", "benign/W7/4.diff", None), (A, "    return get_treepath_memo() + dim.name\n", "    return dim.name\n")], "C16.2")
